@@ -1175,6 +1175,7 @@ pub fn after_step<P: Pid>(m: &mut Mdl, pre_m: &Mdl, pre: &VerifState, post: &Ver
                 if *accepted {
                     if !*sent && !stored {
                         r.viol("c06.a-dropped", pre_m, format!("QoS {q} PUBLISH id {id} was accepted without an error event but is neither requested for sending nor stored (silently dropped)"));
+                        r.viol("c11.accepted-but-lost", pre_m, format!("QoS {q} PUBLISH id {id} handed to send(): no error event, not passed to the transport, not queued - neither of the outcomes the send gate has"));
                     }
                     if m.persistent && !stored {
                         r.viol("c06.b-not-stored", pre_m, format!("session is persistent but the accepted QoS {q} PUBLISH id {id} is not in the store"));
